@@ -147,6 +147,7 @@ func runC23(c *Ctx) []Obligation {
 	}
 	out := c.Rows(rows)
 	out = append(out, appsEditRouting(c, P)...)
+	out = append(out, nodesStakeRouting(c, P)...)
 	return out
 }
 
@@ -362,6 +363,7 @@ func runC24(c *Ctx) []Obligation {
 			Assume: []Lit{F(`^eq\(\(invoke types\.Ctx\.BlockHeight\(ctx\) % ` + kN + `BlocksPerSession\(k, ctx\)\), 0\)$`)},
 			Target: CallTo(`ReleaseWaitingValidators\(`), TargetMustExist: true, Why: "and at no other block"},
 	})...)
+	out = append(out, nodesUnstakeLifecycle(c, P)...)
 	return out
 }
 
@@ -445,6 +447,7 @@ func runC21(c *Ctx) []Obligation {
 		c.origCopyBeforeMutation(P),
 	)
 	out = append(out, queueWriteBack(c, P)...)
+	out = append(out, nodesIndexOnStake(c, P)...)
 	return out
 }
 
